@@ -150,7 +150,7 @@ def roundtrip_small_trees(tier, seed):
             if not ok and len(violations) < 3:
                 violations.append({"unit": "rrel.roundtrip", "kind": "BOUNDED", "label": "parse(repr(t)) == t",
                                    "path": [], "where": "bounded round trip", "text": f"{text!r} -> {t2!r}",
-                                   "model": {"printed": text}})
+                                   "model": {"printed": text}, "native": True})
     return {"name": "rrel.roundtrip-small-trees", "backend": "enumeration with the real parser (bounded)",
             "obligations": 0, "discharged": 0, "bounded": True, "bound": f"tree depth <= {depth}",
             "cases": cases, "violations": violations, "samples": samples,
